@@ -89,6 +89,9 @@ pub enum Dirty {
   SuperClassExpr,
   /// parameter default that is not leavable and has no annotation
   DefaultParamNeedsInference,
+  /// no return type; an early bare `return;` precedes `return <non-inferable value>;`
+  EarlyBareReturn,
+  MethodEarlyBareReturn,
 }
 
 #[derive(Clone, Debug, PartialEq, Eq, Hash)]
@@ -359,8 +362,11 @@ pub fn gen_pkg(rng: &mut Rng, name: &str, n_files: usize, dirty: bool) -> Pkg {
           Dirty::DestructuredParam,
           Dirty::UntypedRestParam,
           Dirty::DefaultParamNeedsInference,
+          Dirty::EarlyBareReturn,
         ]),
+        DK::ArrowConst => *rng.pick(&[Dirty::MissingReturnType, Dirty::EarlyBareReturn]),
         DK::Class => *rng.pick(&[
+          Dirty::MethodEarlyBareReturn,
           Dirty::UntypedClassProp,
           Dirty::MissingMethodReturn,
           Dirty::MethodOverloadUntypedParam,
@@ -376,6 +382,7 @@ pub fn gen_pkg(rng: &mut Rng, name: &str, n_files: usize, dirty: bool) -> Pkg {
           Dirty::AbstractMethodUntypedParam,
           Dirty::MethodOverloadUntypedParam,
           Dirty::MissingMethodReturn,
+          Dirty::MethodEarlyBareReturn,
           Dirty::GetterMissingReturn,
           Dirty::UntypedStaticProp,
         ]),
@@ -574,6 +581,8 @@ impl Ctx<'_> {
         format!("Al_{}", d.name)
       }
       DK::Namespace => format!("{}.Inner", base),
+      // a third of the value declarations are named through a qualified name (`typeof value.member`)
+      _ if d.variant % 3 == 0 => format!("typeof {}.length", base),
       _ => format!("typeof {}", base),
     }
   }
@@ -712,7 +721,7 @@ pub fn render_file(p: &Pkg, f: usize) -> String {
         let generics = if v % 5 == 0 { "<T extends object = {}>" } else { "" };
         let is_async = v % 7 == 0 && d.dirty.is_none();
         let ret = match d.dirty {
-          Some(Dirty::MissingReturnType) => String::new(),
+          Some(Dirty::MissingReturnType) | Some(Dirty::EarlyBareReturn) => String::new(),
           _ if is_async => format!(": Promise<{}>", t(0)),
           _ => format!(": {}", t(0)),
         };
@@ -733,6 +742,12 @@ pub fn render_file(p: &Pkg, f: usize) -> String {
           2 => format!(", ...rest: {}", arr(2)),
           _ => String::new(),
         };
+        let early = if d.dirty == Some(Dirty::EarlyBareReturn) { "  if (compute(0)) {\n    return;\n  }\n" } else { "" };
+        let body_use_fn = format!("{}{}", body_use, early);
+        // a third of the exported functions have a companion type of the same name declared first
+        if v % 6 == 2 && !d.default_export {
+          body.push_str(&format!("{}type {} = {{ companion: {} }};\n", ex, d.name, t(1)));
+        }
         body.push_str(&format!(
           "{}{}function {}{}({}{}){} {{\n{}  return compute({}){};\n}}\n",
           ex,
@@ -742,10 +757,10 @@ pub fn render_file(p: &Pkg, f: usize) -> String {
           p1,
           p2,
           ret,
-          body_use,
+          body_use_fn,
           (v % 9),
           // `return <expr> as T` is inferable, a bare call is not
-          if d.dirty == Some(Dirty::MissingReturnType) { "" } else { " as any" }
+          if matches!(d.dirty, Some(Dirty::MissingReturnType) | Some(Dirty::EarlyBareReturn)) { "" } else { " as any" }
         ));
       }
       DK::OverloadedFunction => {
@@ -808,7 +823,7 @@ pub fn render_file(p: &Pkg, f: usize) -> String {
           Some(Dirty::SetterUntypedParam) => s.push_str("  set bad(value) {\n    compute(1);\n  }\n"),
           _ => {}
         }
-        s.push_str(&format!("  readonly first: {} = undefined as any;\n", t(0)));
+        s.push_str(&format!("  {}readonly first: {} = undefined as any;\n", dc("@decoWith({ column: compute(1) }) "), t(0)));
         match d.dirty {
           Some(Dirty::UntypedClassProp) => s.push_str("  second = compute(1);\n"),
           _ => s.push_str(&format!("  protected second?: {};\n", t(1))),
@@ -835,8 +850,9 @@ pub fn render_file(p: &Pkg, f: usize) -> String {
           ));
         } else if v % 2 == 0 {
           s.push_str(&format!(
-            "  constructor(public param: {}, private other: number = 1, third?: {}, public level: number | string = 1, readonly tag: \"a\" | \"b\" = \"a\") {{\n    {}\n{}  }}\n",
+            "  constructor(public param: {}, private other: number = 1, {}third?: {}, public level: number | string = 1, readonly tag: \"a\" | \"b\" = \"a\") {{\n    {}\n{}  }}\n",
             t(2),
+            dc("@decoWith(\"param\") "),
             t(0),
             if parent.is_some() { "super(undefined as any, 1);" } else { "" },
             body_use
@@ -845,16 +861,17 @@ pub fn render_file(p: &Pkg, f: usize) -> String {
           s.push_str("  constructor() {\n    super(undefined as any, 1);\n  }\n");
         }
         let mret = match d.dirty {
-          Some(Dirty::MissingMethodReturn) => String::new(),
+          Some(Dirty::MissingMethodReturn) | Some(Dirty::MethodEarlyBareReturn) => String::new(),
           _ => format!(": {}", t(1)),
         };
         s.push_str(&format!(
-          "  {}method({}arg: {}, opt?: string){} {{\n    return compute(this.#reallyHidden){};\n  }}\n",
+          "  {}method({}arg: {}, opt?: string){} {{\n{}    return compute(this.#reallyHidden){};\n  }}\n",
           dc("@decoWith({ kind: \"method\" })\n  "),
           dc("@deco "),
           t(0),
           mret,
-          if d.dirty == Some(Dirty::MissingMethodReturn) { "" } else { " as any" }
+          if d.dirty == Some(Dirty::MethodEarlyBareReturn) { "    if (opt) {\n      return;\n    }\n" } else { "" },
+          if matches!(d.dirty, Some(Dirty::MissingMethodReturn) | Some(Dirty::MethodEarlyBareReturn)) { "" } else { " as any" }
         ));
         if d.dirty == Some(Dirty::MethodOverloadUntypedParam) {
           s.push_str(&format!("  over(a): {};\n", t(1)));
@@ -975,17 +992,18 @@ pub fn render_file(p: &Pkg, f: usize) -> String {
       }
       DK::ArrowConst => {
         let ret = match d.dirty {
-          Some(Dirty::MissingReturnType) => String::new(),
+          Some(Dirty::MissingReturnType) | Some(Dirty::EarlyBareReturn) => String::new(),
           _ => format!(": {}", t(1)),
         };
         body.push_str(&format!(
-          "{}const {} = (a: {}, b: number = 2){} => {{\n{}  return compute(b){};\n}};\n",
+          "{}const {} = (a: {}, b: number = 2){} => {{\n{}{}  return compute(b){};\n}};\n",
           ex,
           d.name,
           t(0),
           ret,
           body_use,
-          if d.dirty == Some(Dirty::MissingReturnType) { "" } else { " as any" }
+          if d.dirty == Some(Dirty::EarlyBareReturn) { "  if (b) {\n    return;\n  }\n" } else { "" },
+          if matches!(d.dirty, Some(Dirty::MissingReturnType) | Some(Dirty::EarlyBareReturn)) { "" } else { " as any" }
         ));
       }
       DK::FunctionExprConst => {
